@@ -42,7 +42,10 @@ type Cred struct {
 	ID      int    `json:"id"`
 	Issuer  int    `json:"issuer"`
 	Subject int    `json:"subject"`
-	Types   []int  `json:"types"`
+	// Ctx: which of the two custom JSON-LD contexts the credential uses (0/1 = v1, 2 = v2). The type TERMS T2 and T4
+	// stand for different IRIs in the two (T3 for the same one).
+	Ctx   int   `json:"ctx,omitempty"`
+	Types []int `json:"types"`
 	Proofs  []int  `json:"proofs,omitempty"`
 	JWT     int    `json:"jwt,omitempty"`
 	// SD: an SD-JWT credential (every credentialSubject leaf is selectively disclosable); JWT is then the alg code.
@@ -173,8 +176,13 @@ func coqCred(c Cred) string {
 		at[i] = fmt.Sprintf("(%s, %s)", hx.CoqN(a.K), coqVal(a.V))
 	}
 
-	return fmt.Sprintf("{| c_id := %s; c_issuer := %s; c_subject := %s; c_types := %s; c_proofs := %s; c_jwt := %s; c_sd := %s; c_rawsubj := %s; c_attrs := %s |}",
-		hx.CoqN(c.ID), hx.CoqN(c.Issuer), hx.CoqN(c.Subject), hx.CoqNList(c.Types), hx.CoqNList(c.Proofs),
+	ctx := c.Ctx
+	if ctx == 0 {
+		ctx = 1
+	}
+
+	return fmt.Sprintf("{| c_id := %s; c_issuer := %s; c_subject := %s; c_ctx := %s; c_types := %s; c_proofs := %s; c_jwt := %s; c_sd := %s; c_rawsubj := %s; c_attrs := %s |}",
+		hx.CoqN(c.ID), hx.CoqN(c.Issuer), hx.CoqN(c.Subject), hx.CoqN(ctx), hx.CoqNList(c.Types), hx.CoqNList(c.Proofs),
 		hx.CoqN(c.JWT), hx.CoqBool(c.SD), hx.CoqBool(c.MapSubject), hx.CoqList(at))
 }
 
@@ -422,11 +430,20 @@ func refField(f Field, c Cred) bool {
 }
 
 // refSatisfies: does the (original) credential satisfy the descriptor's format, schema and constraints?
+// typeIRI: the IRI (code) the credential's context gives a type term.
+func typeIRI(c Cred, t int) int {
+	if c.Ctx == 2 && (t == 2 || t == 4) {
+		return t + 10
+	}
+
+	return t
+}
+
 func refSatisfies(p Defn, d Desc, c Cred) bool {
 	for _, s := range d.Schema {
 		has := false
 		for _, t := range c.Types {
-			has = has || t == s.URI
+			has = has || typeIRI(c, t) == s.URI
 		}
 
 		if s.Required && !has {
@@ -439,7 +456,7 @@ func refSatisfies(p Defn, d Desc, c Cred) bool {
 
 		for _, s := range d.Schema {
 			for _, t := range c.Types {
-				any = any || t == s.URI
+				any = any || typeIRI(c, t) == s.URI
 			}
 		}
 
